@@ -118,6 +118,21 @@ static inline void F_(_splice)(LP_ *P, L_ *l, cstl_iter pos, cstl_iter it)
     F_(_unlink)(P, it);
     F_(_link_before)(P, l, pos, it);
 }
+/* l.splice(pos, l, first, last): a range of the same list; pos must not be in [first,last) */
+static inline void F_(_splice_range)(LP_ *P, L_ *l, cstl_iter pos, cstl_iter first, cstl_iter last)
+{
+    CSTL_ASSERT(F_(_valid)(P, pos) && P->owner[pos] == l->head, "std.list.splice(range): pos is a valid iterator of this list [C08]");
+    CSTL_ASSERT(F_(_valid)(P, first) && P->owner[first] == l->head && F_(_valid)(P, last) && P->owner[last] == l->head, "std.list.splice(range): [first,last) in this list [C08]");
+    cstl_iter it = first;
+    for (uint64_t n = 0; n < CSTL_NP && it != last; n++)
+    {
+        CSTL_ASSERT(!P->sent[it], "std.list.splice(range): [first,last) is a valid range [C08]");
+        CSTL_ASSERT(it != pos, "std.list.splice(range): pos is not in [first,last) [C08]");
+        cstl_iter nx = P->next[it];
+        F_(_splice)(P, l, pos, it);
+        it = nx;
+    }
+}
 /* erase(it): returns the following iterator */
 static inline cstl_iter F_(_erase)(LP_ *P, L_ *l, cstl_iter it)
 {
